@@ -4,6 +4,7 @@ import (
 	"fmt"
 	"sort"
 	"strings"
+	"time"
 )
 
 // A Decision is the recorded outcome of one symbolic fork on a path.
@@ -143,6 +144,9 @@ func (p *Path) feasible(c *Term) bool {
 	}
 	if c.IsFalse() {
 		return false
+	}
+	if hd := p.w.cfg.HardDeadline; !hd.IsZero() && time.Now().After(hd) {
+		p.abort(abortBudget, "exploration deadline reached in the middle of a path")
 	}
 	r := p.w.solver.CheckWith(c)
 	switch r {
